@@ -30,6 +30,41 @@ CLAIMED = {
             "and handle_timeout names a path inside a configured location (mkdir/rmdir: or an ancestor of one). Tie: exhaustive names to length 6, store paths, and handler histories whose real call logs are checked.",
             NOTE + "Confinement is string-level (prefix) and assumes canonical queue entries (no '..'); effects on the watched tree are judged by the dump monitor.",
             "program logic over the effect monad (call-log predicate for all oracles); differential correspondence + log monitor"),
+    "C02": ("Queue part proved: a due queue yields each path exactly once, in the order of its last write (reference FIFO, to which the queue model is proved equal for "
+            "every interleaving), nothing pending = indefinite wait; copy part proved: C05_copy_exact. Handler-level composition (exactly one new version with the "
+            "current content per due file, nothing else, expected remaining queue and wait) is tied by running the real handler against the world model on random burst "
+            "histories and judged by a burst monitor on the implementation's own dumps.",
+            NOTE + "Partial: no single theorem composes queue + copy + pop at handler level.", "FIFO refinement + copy theorem; world correspondence + burst monitor"),
+    "C03": ("Theorem: after any prefix of any operation history the queue directory reloads to exactly the reference queue of that prefix (every queue operation is a single "
+            "directory mutation, so these are all disk states a crash can leave); a torn position file only rewinds. Store side: confinement for every oracle including crashes. "
+            "Tie: the implementation is really killed (_exit) before every system call of 15 scenario families, restarted and drained, and compared with the model under the same crash index.",
+            NOTE + "Crash = process death between two system calls with completed calls durable. Known finding K3 (reload changing queue_path strands pending entries).",
+            "prefix-closed simulation invariant; crash-point enumeration against the model + recovery monitor"),
+    "C04": ("Theorems: candidate names base,-1,-2,... for every k; every creating/removing/write-opening call confined under every oracle (store files are only opened O_CREAT|O_EXCL; the call alphabet "
+            "has no rename or truncating open). Tie: histories with up to 12 versions in one timestamp and pre-seeded names, judged by 'no store file changes or disappears' and "
+            "'first free name' monitors; thorough: every crash point and single fault.",
+            NOTE + "Partial until the semantic store-immutability theorem (StoreProofs) is integrated.", "layout theorem + call discipline for all oracles; world correspondence + monitors"),
+    "C05": ("Theorems for every content, offset and every positive chunking of the transfer: the version is byte-for-byte the source from the offset on, created as a new inode, nothing else touched "
+            "(also when ancestors must be created); and for a missing, unreadable or non-regular source: result 0, the matching condition recorded, nothing added, every file and link kept, only "
+            "directories on the destination chain that are empty without it disappear. Tie: sizes around the page and 70000 bytes, chunk limits, and every way the source changes before the copy, with real EACCES.",
+            NOTE + "Source not modified during the copy (single-threaded model).", "loop invariant over the sendfile loop for all oracles of the benign class; world correspondence + monitors"),
+    "C08": ("Theorems: each pass stores exactly the bytes from the remembered position on and returns the new position (any chunking); over any append-only growth the slices concatenate to the file "
+            "(no byte missing or duplicated); the position round-trips through its decimal file and a torn write only rewinds. Tie: append histories with restarts and every single fault in copy and position update.",
+            NOTE + "Known finding K1: a fault inside the position update duplicates the slice after the restart (at-least-once).", "induction over append histories + decimal codec lemmas; world correspondence + history monitor"),
+    "C10": ("Theorems: catch only at depth 0 and errors never dropped by finally/try (trace bookkeeping); every call confined under any number of faults; an interrupted position update never moves ahead. "
+            "Tie: every call index of the implementation's own log x plausible errnos for 15 scenario families (one fault at a time), then release, restart, drain; outcome, error trace, log and disk "
+            "compared with the model; monitors: completed-or-reported, nothing pending lost, no partial version, position kept.",
+            NOTE + "Allocation failures are not modelled (not enumerated in this version). Faults ENOENT/EACCES at the open of the source simulate the expected conditions. Known finding K3.",
+            "fault enumeration against the model under the same oracle + monitors; trace lemmas"),
+    "C11": ("Theorem: the flags of a queued project member round-trip (project bit, history bit, root offset do not interfere); snapshot calls confined (C09). Tie: project histories (root and parent style, "
+            "depth 1-4, deletions, restarts, both traversal orders); monitor: every new snapshot entry is the same inode as the latest version, every versioned member that still exists is present.",
+            NOTE + "Partial: the snapshot content is established by correspondence + monitor, not by a theorem.", "bit-field lemma; world correspondence + project monitor"),
+    "C19": ("Theorems: line format (empty timestamp/label omitted with their tab, pid omitted when 0), exactly one newline, any positive chunking of the write appends exactly the line once, a labelled "
+            "event appends exactly its line and nothing else changes, unlabelled events / no journal do nothing. Tie: all label choices, timestamp patterns including the empty one, short writes, journal monitor.",
+            NOTE, "induction over the write loop for all chunkings; world correspondence + journal monitor"),
+    "C20": ("Descriptor and heap figures measured on the real code (wrapped open/close and allocator): 2 descriptors with a handler loaded after every operation, 0 after release; one mixed round repeated "
+            "1, 10, 100 times ends with identical live-block and descriptor counts. Theorem so far: the in-memory multiset grows only with the queue.",
+            NOTE + "Partial: memory is not expressible in the model (objects are values); descriptor neutrality theorem (FdProofs) pending.", "measurement on the implementation + correspondence"),
 }
 ENGINE = "coq-model+correspondence"
 
